@@ -126,7 +126,7 @@ func init() {
 		goMapDelete,
 		goMapEnumerate,
 		objectClone,
-		nil,
+		goContainerMarshalJSON,
 	}
 
 	classGoArray = &objectClass{
@@ -141,7 +141,7 @@ func init() {
 		goArrayDelete,
 		goArrayEnumerate,
 		objectClone,
-		nil,
+		goContainerMarshalJSON,
 	}
 
 	classGoSlice = &objectClass{
@@ -156,7 +156,7 @@ func init() {
 		goSliceDelete,
 		goSliceEnumerate,
 		objectClone,
-		nil,
+		goContainerMarshalJSON,
 	}
 }
 
